@@ -29,6 +29,7 @@ let () =
   register "c05_wit_deser" (function [a] -> of_result (fun (w, r) -> VT [of_stack w; VB r]) (Model.c05_wit_deser (vb a)) | _ -> raise (Bad "arity"));
   register "c05_outpoint" (function [a; b] -> bytes_r (Model.c05_outpoint (vb a) (vi b)) | _ -> raise (Bad "arity"));
   register "c05_txin" (function [a; b; c] -> bytes_r (Model.c05_txin (vb a) (vb b) (vb c)) | _ -> raise (Bad "arity"));
+  register "c05_txin_default" (function [a; b] -> bytes_r (Model.c05_txin_default (vb a) (vb b)) | _ -> raise (Bad "arity"));
   register "c05_txout" (function [a; b] -> bytes_r (Model.c05_txout (vi a) (vb b)) | _ -> raise (Bad "arity"));
   register "c05_tx_raw" (function [a; b; c; d; e] ->
       bytes_r (Model.c05_tx_raw (List.map vb (vl a)) (List.map vb (vl b)) (vi c) (vi d) (List.map vb (vl e)))
